@@ -5,16 +5,34 @@ import json, os, subprocess
 here = os.path.dirname(os.path.dirname(os.path.abspath(__file__)))
 props = [json.loads(l) for l in open(os.path.join(here, 'properties.jsonl'))]
 
+TECH = 'contract-based deductive verification: VCs generated from the Go AST (go/ast+go/types), discharged by z3/cvc5; ownership/frame obligations by the tool'
 CLAIMED = {
  'C01': dict(cat='proof', ref='DESIGN.md §4 C01',
-   text='Every function of the merge layer (merge, mergeMap, mergeMapMap, mergeList, mergeListList, mergeListDelete, mergeListMatch, match*, and the pop*/has* helpers, with filterList inlined from its real body) is proved, for all trees and all map iteration orders, to return exactly mergeF/mergeErr/matchS of the spec library, which is written from the documented merge rules; the recursive call is used through its contract, so layer chains of any length follow by composition.',
-   note='Assumed: deepClone returns an equal tree (trusted contract); mergeF is characterised by one spec axiom (it satisfies its defining equations); finite-map cardinality and rank axioms; partial correctness (termination is C08); value semantics of trees (sharing is C02).',
-   tech='contract-based deductive verification: VCs generated from the Go AST, discharged by z3/cvc5'),
+   text='Every function of the merge layer (merge, mergeMap, mergeMapMap, mergeList, mergeListList, mergeListDelete, mergeListMatch, match*, and the pop*/has* helpers, with filterList inlined from its real body) is proved, for all trees and all map iteration orders, to return exactly mergeF/mergeErr/matchS of the spec library, which is written from the documented merge rules; the recursive call is used through its contract, so layer chains of any length follow by composition. Ownership obligations prove that no value is merged into two places (list $match fan-out).',
+   note='Assumed: deepClone returns an equal tree (trusted contract); mergeF is characterised by one spec axiom (it satisfies its defining equations); finite-map cardinality and rank axioms; partial correctness (termination is C08); value semantics of trees backed by the ownership obligations.'),
+ 'C02': dict(cat='proof', ref='DESIGN.md §4 C02',
+   text='Ownership and frame obligations over MergeDocument, mergePatchMatch, mergeDocs, mergeFile, MergeFile(Layers): the data of a layer document is never handed to merge (which embeds and mutates its source) for more than one target, no stored tree is consumed without being declared, and only Parser.docs, Document.Data and Document.Parents are written. The per-target result is the C01 contract of merge; the pattern used for target selection is matchS (proved for match).',
+   note='The target-selection function itself (parents/AllParents/findMatches: which documents are selected) has no functional contract yet - not claimed; Assumed: deepClone returns an equal, unshared tree; the ownership analysis is a flow-sensitive abstract interpretation written for this task (trusted).'),
+ 'C07': dict(cat='proof', ref='DESIGN.md §4 C07',
+   text='validate/validateMap/validateList/validateString are proved to fail exactly on trees containing a marker ($required or $ followed by a lowercase letter, in keys or values); outputDocument is proved to emit only finalize(v) of candidates v that passed validate after hiding (site assertion noMarker(v2) at the finalizeOutput call, and the emit/candidates structure as a postcondition); the $required strip of list merging is part of the C01 contract of mergeListList.',
+   note='Assumed: utf8string/unicode.IsLower modelled by str.len/str.at and isLowerRune with ASCII axioms; Document.Process is not under functional contract here (its result is arbitrary in this proof, which is what makes the clause hold for every evaluation); process2Encode validation is checked under C14 when built.'),
+ 'C08': dict(cat='other', ref='DESIGN.md §4 C08',
+   text='Zero-annotation sweep over every function of the library and the tool packages: every type assertion without comma-ok, index/slice expression, nil-map write, interface comparison, division and explicit panic gets a no-panic obligation under the path condition; every recursive call inside a call-graph cycle and every non-counting loop gets a termination obligation against the decreases measures in the contracts (depth guard of process1/process2/interpolation, file-chain depth, structural rank).',
+   note='Not proved (listed in the evidence as unclaimed or assumed): termination of normalize*, yamlTranslateNode (external node graphs), Document.AllParents (parent graph), mergeListList->mergeListMatch (needs a size-additive measure), the json decoder loop; nil pointer dereferences are assumed away (API misuse); stdout/exit discipline of the mains and resource exhaustion are not decided here.'),
+ 'C10': dict(cat='other', ref='DESIGN.md §4 C10',
+   text='Ownership obligations over process1*: the subtree returned by a reference look-up (borrowed from the stored documents) is never passed to merge as a source or destination without a copy, so a $merge cannot change the subtree it refers to, cannot create self-containing structures and cannot make the result depend on evaluation order; matchS including the placeholder rule is proved for match/matchMap.',
+   note='The look-up functions (getPath, getCrossDoc, getPathFromString/List) and the dispatch (what $merge/$replace evaluate to) have no functional contracts yet - not claimed; in-place evaluation of the host map by process1 is a documented design decision (mode inplace) and is not flagged.'),
+ 'C11': dict(cat='proof', ref='DESIGN.md §4 C11',
+   text='findOutputs/findOutputsMap/findOutputsList are proved to return stripF(obj) and selF(obj) (selection order: map first, children by ascending key; list children then the list), filterOutput* to return hideF(obj), and outputDocument to return exactly emitF(candidates) with the root fallback and per-candidate hiding, for all trees; specs written from the property statement.',
+   note='Stated for trees in which no list holds a map carrying $output together with other keys (the code rejects those with "extra keys" - recorded as finding F15 in DESIGN.md; the error behaviour itself is proved); sortedMap is modelled by its assumed contract (ascending keys, each once); stripF/hideF/finF/selF are characterised by one defining axiom each.'),
  'C17': dict(cat='proof', ref='DESIGN.md §4 C17',
    text='required/requiredMap/requiredList are proved to return exactly reqF(obj), the spec of the $required skeleton written from the property statement, for all trees and all map iteration orders.',
-   note='Assumed: reqF is characterised by one spec axiom; list lemmas appNil/snocApp are proved by their own induction obligations in the same run; main() of bklr and the codecs are not under contract.',
-   tech='contract-based deductive verification: VCs generated from the Go AST, discharged by z3/cvc5'),
+   note='Assumed: reqF is characterised by one spec axiom; list lemmas appNil/snocApp are proved by their own induction obligations in the same run; main() of bklr and the codecs are not under contract.'),
+ 'C19': dict(cat='proof', ref='DESIGN.md §4 C19',
+   text='Frame obligations: Output, OutputDocuments, OutputToWriter, OutputToFile, outputDocument and Documents are declared `modifies nothing`, and the tool proves that neither they nor anything they call writes a struct field of an object that was not allocated during the call (Document.Process works on a Clone), nor mutates a tree reachable from a stored document (ownership obligations over process1*, merge*).',
+   note='"Same bytes each time" then follows from determinism of evaluation (C09) - not separately proved; Assumed: Document.Clone/deepClone return unshared copies; the ownership/frame analysis is a flow-sensitive abstract interpretation written for this task (trusted).'),
 }
+for c in CLAIMED.values(): c['tech'] = TECH
 NA_REASON = 'machinery for this property is not built yet (build phase in progress); plan in DESIGN.md §4'
 
 checks = []
